@@ -36,3 +36,12 @@ def decide(a, b):
     if key not in _memo:
         _memo[key] = a == b
     return _memo[key] and _CONSTANTS["x"]
+
+
+_EMPTY = {}                             # module-level container handed out to callers
+
+
+def components(dim):
+    if isinstance(dim, int):
+        return dim, _EMPTY
+    return dim, {"n": dim}
